@@ -172,6 +172,15 @@ mutual
     | .prim "LEVEL" [] _ => some .LEVEL
     | .prim "CHAIN_ID" [] _ => some .CHAIN_ID
     | .prim "SELF_ADDRESS" [] _ => some .SELF_ADDRESS
+    | .prim "TOTAL_VOTING_POWER" [] _ => some .TOTAL_VOTING_POWER
+    | .prim "MIN_BLOCK_TIME" [] _ => some .MIN_BLOCK_TIME
+    | .prim "BLAKE2B" [] _ => some .BLAKE2B
+    | .prim "SHA256" [] _ => some .SHA256
+    | .prim "SHA512" [] _ => some .SHA512
+    | .prim "KECCAK" [] _ => some .KECCAK
+    | .prim "SHA3" [] _ => some .SHA3
+    | .prim "CAST" [t] _ => (tyOfMich t).map .CAST
+    | .prim "RENAME" [] _ => some .RENAME
     | _ => none
 end
 
@@ -232,6 +241,10 @@ mutual
     | .AMOUNT => .prim "AMOUNT" [] [] | .BALANCE => .prim "BALANCE" [] [] | .SENDER => .prim "SENDER" [] []
     | .SOURCE => .prim "SOURCE" [] [] | .NOW => .prim "NOW" [] [] | .LEVEL => .prim "LEVEL" [] []
     | .CHAIN_ID => .prim "CHAIN_ID" [] [] | .SELF_ADDRESS => .prim "SELF_ADDRESS" [] []
+    | .TOTAL_VOTING_POWER => .prim "TOTAL_VOTING_POWER" [] [] | .MIN_BLOCK_TIME => .prim "MIN_BLOCK_TIME" [] []
+    | .BLAKE2B => .prim "BLAKE2B" [] [] | .SHA256 => .prim "SHA256" [] [] | .SHA512 => .prim "SHA512" [] []
+    | .KECCAK => .prim "KECCAK" [] [] | .SHA3 => .prim "SHA3" [] []
+    | .CAST t => .prim "CAST" [tyToMich t] [] | .RENAME => .prim "RENAME" [] []
 end
 
 end Driver
